@@ -1,6 +1,6 @@
 (** C27 — Invalid blocks are rejected without side effects or poisoning. *)
 From Coq Require Import List ZArith NArith Bool.
-From C33 Require Import C27.Model C27.Proofs C27.ProofsRefute C27.Proofs2 C27.ProofsExamples.
+From C33 Require Import C27.Model C27.Proofs C27.ProofsRefute C27.Proofs2 C27.Proofs3 C27.ProofsExamples.
 Import ListNotations.
 Open Scope Z_scope.
 
@@ -70,3 +70,15 @@ Print Assumptions C27_rejected_invisible_refuted.
 Theorem C27_no_panic_refuted : ~ C27_no_panic_full.
 Proof. exact no_panic_refuted. Qed.
 Print Assumptions C27_no_panic_refuted.
+
+(** With only valid deliveries the model makes exactly the moves of C25's
+    chain-selection model (to which C25_converges applies). *)
+Theorem C27_valid_refines_C25 :
+  forall (verr : N -> N -> N) (g : block),
+    verr (bid g) 0%N = 0%N ->
+    forall (fin : Z) (hist : list item),
+      (forall i, In i hist -> verr (ihash i) (ibody i) = 0%N) ->
+      vmain (vrun verr fin g hist) = main (run fin g (map iblk hist))
+      /\ vtip (vrun verr fin g hist) = tip (run fin g (map iblk hist)).
+Proof. exact valid_refines_C25. Qed.
+Print Assumptions C27_valid_refines_C25.
